@@ -30,6 +30,17 @@ theorem var_total_rounded_gamma (M : FpModel) (input : ℝ) (msgs : List (Nat ×
     List.sum_nonneg (by intro a ha; simp only [List.mem_map] at ha; obtain ⟨z, _, rfl⟩ := ha; exact abs_nonneg z)
   exact mul_le_mul_of_nonneg_right (by linarith) (by positivity)
 
+/-- C05: … and the message to each check, `fl(total̃ − own contribution)`, is within (bⁿ⁺² − 1)·(|input| + Σ|msgs| + |own|) of
+"that total minus the check's own contribution" -/
+theorem var_msgs_rounded (M : FpModel) (input : ℝ) (msgs : List (Nat × ℝ)) (m : Nat × ℝ) (hm : m ∈ msgs) :
+    ∃ o ∈ (varRule (Sc.rounded M) input msgs).2, o.1 = m.1 ∧
+      |o.2 - ((input + (msgs.map (·.2)).sum) - m.2)| ≤
+        ((b M) ^ (msgs.length + 2) - 1) * (|input| + ((msgs.map (·.2)).map (fun x => |x|)).sum + |m.2|) := by
+  have h := varRule_msgs_err M input msgs m hm
+  have e : (varRule Sc.real input msgs).1 = input + (msgs.map (·.2)).sum := by
+    unfold varRule; simp only [real_add, BoxL.sum_real]
+  rw [e] at h; exact h
+
 /-- non-vacuity: in exact arithmetic the bound is 0 -/
 example : (b FpModel.exact) ^ 5 - 1 = 0 := by unfold b FpModel.exact; simp
 
